@@ -53,7 +53,7 @@ Print Assumptions trunc_prefix.
 
 (* ... and it parses back to exactly that prefix message: same id, flags with TC as stated, EDNS state,
    TSIG record, and per section the kept record sets (well-formed ordinary message, with or without
-   origin; _partial: no padding, and the dynamic-update forms are outside C03's render_parse_partial) *)
+   origin; _partial: no padding, and the dynamic-update forms are outside C03's render_parse) *)
 Theorem trunc_parses_partial : forall o m max_size request_payload w,
   org_ok o -> WfMsg o m -> wf_tsig m -> to_wire m o max_size request_payload true 0 = Ok w ->
   exists q1 q2 a1 a2 u1 u2 d1 d2 m',
